@@ -457,7 +457,7 @@ func c16Client(r *ev.Run, div int) {
 				return
 			}
 			r.Case(res.class)
-			if i == 0 && res.witness == nil {
+			if i < 3 {
 				r.Sample(map[string]interface{}{"history_class": res.class, "outcome": res.kind})
 			}
 		}(i)
